@@ -74,6 +74,35 @@ def build(P):
                 lines += ["INPUT rest", "OUTPUT \"rest=\", rest"]
                 progs.append(Case(id="C05-input-%s-%s" % (tt, inp.hex()), prog=("\n".join(lines) + "\n").encode(), stdin=inp + b"\nnextline\n", meta=dict(units=["input/%s/%r" % (tt, inp)])))
         yield ("input", progs)
+        # procedure-level type definitions: which names they may take, what a variable / parameter of such a type accepts
+        kinds = {"enum": ("TYPE %s = (A%d, B%d)", "A%d"), "ptr": ("TYPE %s = ^%s", None), "rec": ("TYPE %s\nDECLARE v : %s\nENDTYPE", None)}
+        def tdef(kind, name, k, base="INTEGER"):
+            if kind == "enum": return "TYPE %s = (A%d, B%d)" % (name, k, k)
+            if kind == "ptr": return "TYPE %s = ^%s" % (name, base)
+            return "TYPE %s\nDECLARE v : %s\nENDTYPE" % (name, base)
+        scoped = []
+        for gk in ("enum", "ptr", "rec"):
+            for lk in ("enum", "ptr", "rec"):
+                for where in ("PROCEDURE P()", "FUNCTION P() RETURNS INTEGER"):
+                    end = "ENDPROCEDURE" if where.startswith("PROC") else "RETURN 1\nENDFUNCTION"
+                    call = "CALL P()" if where.startswith("PROC") else "OUTPUT P()"
+                    # the local definition re-uses the name of a global type / of a type of the calling procedure / a fresh name; called twice
+                    scoped.append("\n".join([tdef(gk, "T", 1), where, tdef(lk, "T", 2, "STRING"), "OUTPUT \"in\"", end, call, "OUTPUT \"after\""]))
+                    scoped.append("\n".join([tdef(gk, "T", 1), where, tdef(lk, "U", 2, "STRING"), "DECLARE u : U", "OUTPUT \"in\"", end, call, call, "OUTPUT \"after\""]))
+                    scoped.append("\n".join([where, tdef(lk, "T", 2, "STRING"), "OUTPUT \"in\"", end, "PROCEDURE Q()", tdef(gk, "T", 1), call, "OUTPUT \"q\"", "ENDPROCEDURE", "CALL Q()", tdef(gk, "T", 3), "OUTPUT \"after\""]))
+        scoped += [
+            # an enum name of a procedure-level type against a global enum name / variable / type of that name
+            "TYPE E = (Red, Green)\nPROCEDURE P()\nTYPE F = (Green, Blue)\nOUTPUT \"in\"\nENDPROCEDURE\nCALL P()\nOUTPUT \"after\"",
+            "TYPE E = (Red, Green)\nPROCEDURE P()\nTYPE Red = ^INTEGER\nOUTPUT \"in\"\nENDPROCEDURE\nCALL P()\nOUTPUT \"after\"",
+            "DECLARE T : INTEGER\nPROCEDURE P()\nTYPE T = ^INTEGER\nDECLARE p : T\nOUTPUT \"in\"\nENDPROCEDURE\nCALL P()\nOUTPUT \"after\"",
+            # BYREF parameter whose declared type and the argument's type differ only through a procedure-level definition of the same name
+            "TYPE R\nDECLARE q : IP\nENDTYPE\nDECLARE s : STRING\ns <- \"hello\"\nFUNCTION H(BYREF rr : R) RETURNS INTEGER\nTYPE IP = ^STRING\nrr.q <- ^s\nRETURN 0\nENDFUNCTION\nPROCEDURE P(BYREF a : INTEGER, BYVAL b : INTEGER)\na <- 5\nENDPROCEDURE\nPROCEDURE F()\nTYPE IP = ^INTEGER\nDECLARE x : INTEGER\nDECLARE r : R\nr.q <- ^x\nCALL P(r.q^, H(r))\nENDPROCEDURE\nCALL F()\nOUTPUT s\nOUTPUT LENGTH(s)",
+            "TYPE IP = ^INTEGER\nDECLARE x : INTEGER\nDECLARE s : STRING\nDECLARE p : IP\np <- ^x\ns <- \"hello\"\nFUNCTION G() RETURNS INTEGER\nTYPE IP = ^STRING\np <- ^s\nRETURN 0\nENDFUNCTION\nPROCEDURE P(BYREF a : INTEGER, BYVAL b : INTEGER)\na <- 5\nENDPROCEDURE\nCALL P(p^, G())\nOUTPUT s\nOUTPUT LENGTH(s)",
+            # a later argument with a side effect on an earlier BYREF argument's target
+            "DECLARE x : INTEGER\nx <- 1\nFUNCTION Bump() RETURNS INTEGER\nx <- x + 10\nRETURN x\nENDFUNCTION\nPROCEDURE P(BYREF a : INTEGER, b : INTEGER)\nOUTPUT a, \" \", b\na <- a + b\nENDPROCEDURE\nCALL P(x, Bump())\nOUTPUT x",
+            "TYPE IP = ^INTEGER\nDECLARE x, y : INTEGER\nDECLARE p : IP\nx <- 1\ny <- 2\np <- ^x\nFUNCTION Swing() RETURNS INTEGER\np <- ^y\nRETURN 7\nENDFUNCTION\nPROCEDURE P(BYREF a : INTEGER, b : INTEGER)\na <- a * 100 + b\nENDPROCEDURE\nCALL P(p^, Swing())\nOUTPUT x, \" \", y",
+        ]
+        yield ("scoped-types", [Case(id="C05-scoped-%d" % i, prog=(sp + "\n").encode(), meta=dict(units=["scoped/%d" % i])) for i, sp in enumerate(scoped)])
         n = sizes(tier, 600, 20000)
         cs = []
         for i in range(n):
